@@ -6,6 +6,7 @@ package otter
 // deletion events.  The audit record is judged by spec/WRAudit.tla (Agree, Bound, Conservation).
 
 import (
+	"strings"
 	"bufio"
 	"encoding/json"
 	"math/rand"
@@ -318,6 +319,9 @@ func runWRScenario(sc wrScenario) wrAudit {
 			s.Go("m"+strconv.Itoa(i+1), func() { c.SetMaximum(uint64(m)) })
 		}
 		a.Diag = s.Run()
+	if a.Diag != "" && a.Diag != "step limit" && !strings.HasPrefix(a.Diag, "panic") && s.WaitDone(5*time.Second) {
+		a.Diag = ""
+	}
 		a.Steps = len(s.Log)
 	}
 	// quiescence: every call has returned; wait for the goroutines the cache started, then let pending maintenance run
@@ -378,5 +382,8 @@ func TestVerifWR(t *testing.T) {
 	for _, sc := range scs {
 		r := runWRScenario(sc)
 		_ = enc.Encode(r)
+		if strings.HasPrefix(r.Diag, "panic") || strings.HasPrefix(r.Diag, "hang") {
+			break
+		}
 	}
 }
